@@ -80,7 +80,13 @@ func handleRetransmitTimeout(
 	// RFC 4347 4.2.4.1: retransmissions use exponential backoff, capped at
 	// 60 seconds.
 	if !cfg.DisableRetransmitBackoff {
-		*retransmitInterval *= 2
+		// Compare before doubling: twice a very long interval does not fit
+		// a time.Duration and would come out negative.
+		if *retransmitInterval > time.Second*30 {
+			*retransmitInterval = time.Second * 60
+		} else {
+			*retransmitInterval *= 2
+		}
 	}
 	if *retransmitInterval > time.Second*60 {
 		*retransmitInterval = time.Second * 60
